@@ -120,12 +120,14 @@ func attributeValueClass(c context) string {
 		if c.attr.value != "" || c.attr.dynamic {
 			s += "Partial"
 		}
+	case c.attr.ambiguousValue:
+		// Also when the value of the representative branch is empty, as in
+		// `<a href="{{if .C}}{{else}}java{{end}}{{template "t" .}}">`.
+		s += "AmbiguousPrefix"
 	case c.attr.value == "" && c.attr.dynamic:
 		s += "AfterAction"
 	case c.attr.value == "":
 		s += "Start"
-	case c.attr.ambiguousValue:
-		s += "AmbiguousPrefix"
 	default:
 		s += urlPrefixClass(sc, c.attr.value)
 		if c.attr.dynamicStart {
